@@ -319,43 +319,31 @@ class Cpt(ImmittanceMixin):
         If `node_map` is not `None`, rename the nodes.  If `zero` is `True`,
         set args to zero."""
 
-        string = self.name
-        field = 0
-
+        nodes = []
         for node in self.relnodes:
             node_name = node.name
             if node_map is not None:
                 node_name = node_map[node_name]
-            string += ' ' + node_name
-            field += 1
-            if field == self.keyword[0]:
-                string += ' ' + self.keyword[1]
-                field += 1
+            nodes.append(node_name)
 
+        args = []
         for arg in self.args:
             if zero:
                 # FIXME: zeroing all args doesn't make much sense.
                 # Perhaps only zero first arg?
                 arg = 0
             elif arg is None:
-                # An unspecified initial condition stays unspecified.
-                continue
+                # An unspecified value stays unspecified.
+                pass
             elif subs_dict is not None:
                 # Perform substitutions
                 arg = str(expr(arg).subs(subs_dict))
+            args.append(arg)
 
-            string += ' ' + self._arg_format(arg)
-            field += 1
-            if field == self.keyword[0]:
-                string += ' ' + self.keyword[1]
-
-        if len(self.args) == 0 and self.keyword[0] == 0:
-            string += ' ' + self.keyword[1]
-
-        opts_str = str(self.opts).strip()
-        if opts_str != '':
-            string += '; ' + opts_str
-        return string
+        # Use the same printer as for str(cpt) so that the keyword and
+        # the undefined arguments are placed as the parser expects.
+        return self._netmake1(self.namespace + self.relname, nodes=nodes,
+                              args=args)
 
     def _rename_nodes(self, node_map):
         """Rename the nodes using dictionary node_map."""
